@@ -23,7 +23,7 @@ META = {
         "C18.P1 _perform_transition: unknown name raises; wrong source raises before any effect; exactly one write of the current state = transition.destination; order and exactly-once of leave/enter/called",
         "C18.O1 State.enter/leave: the active flag of the step is written before enter handlers run (they re-enter the engine), True in enter / False in leave on every path, one fire per call with the right event, symmetric parent propagation",
         "C18.T1 shipped machines: unique state/transition names, one initial state = initial current state, transitions reference declared states, every wrapper performs a declared transition, lock-step walk coincides with the LCA walk for all 5+9+17 transitions",
-        "C18.O2 the whole ancestor walk of enter / leave, evaluated on an abstract forest with composites of depth 1 and 2: exactly the states below the nearest common ancestor are left / entered (equal depth: holds; different depth: known finding)",
+        "C18.O2 the whole ancestor walk of enter / leave, evaluated on an abstract forest with composites of depth 1 and 2: exactly the states below the nearest state strictly above both are left / entered (equal depth and composite / own substate: hold; different depth: known finding)",
         "C18.L1 the check-then-act in _perform_transition is under one lock although it is entered from timer threads and caller threads",
         "C18.E1 Event/EventProducer: every fire dispatches to every registered callback exactly once (no re-entrancy guard drops nested events)",
     ],
@@ -356,28 +356,35 @@ def _check_ancestor_walk(ctx, walks, helpers):
             cur, arg = cur.parent, active[0]
         return seen + ["<does not end>"]
 
-    bad = {"equal": [], "uneven": []}
+    bad = {"equal": [], "uneven": [], "related": []}
     n = 0
     for s in states:
         for d in states:
-            if s is d or s in chain(d) or d in chain(s):
+            if s is d:
                 continue
             n += 1
-            common = next((k for k in chain(s) if k in chain(d)), None)
+            related = s in chain(d) or d in chain(s)
+            # the nearest state strictly above both: a transition between a composite and one of its own substates leaves and
+            # re-enters the composite (both endpoints are exited / entered themselves)
+            common = next((k for k in chain(s)[1:] if k in chain(d)[1:]), None)
             left = [k.label for k in chain(s)[: chain(s).index(common)]] if common is not None else [k.label for k in chain(s)]
             entered = [k.label for k in chain(d)[: chain(d).index(common)]] if common is not None else [k.label for k in chain(d)]
             got_l, got_e = visited("leave", s, d), visited("enter", d, s)
             if got_l != left or got_e != entered:
-                kind = "equal" if len(chain(s)) == len(chain(d)) else "uneven"
+                top = s if s in chain(d) else d
+                # a composite that has a parent of its own and one of its substates are states of different depth below that parent
+                kind = "related" if related and top.parent is None else ("equal" if len(chain(s)) == len(chain(d)) else "uneven")
                 bad[kind].append(f"{s.label}->{d.label}: leaves {got_l} (exited: {left}), enters {got_e} (entered: {entered})")
     ctx.floor("state pairs walked on the abstract forest", n, 20)
     where = "secsgem/common/state_machine.py"
     ctx.ob("C18.O2", "State.enter/leave", not bad["equal"], "between states of equal depth exactly the states below the nearest common ancestor are left and entered" if not bad["equal"] else
            f"between states of equal depth the walk does not stop at the nearest common ancestor: {bad['equal'][:2]}", key="ancestor-walk equal depth", where=where)
+    ctx.ob("C18.O2", "State.enter/leave", not bad["related"], "between a composite state and one of its own substates the composite is left and entered with them" if not bad["related"] else
+           f"between a composite state and its own substate the walk is wrong: {bad['related'][:2]} (the composite is left by the transition and must be entered again, or the other way round)", key="ancestor-walk composite and substate", where=where)
     ctx.ob("C18.O2", "State.enter/leave", not bad["uneven"], "between states of different depth exactly the states below the nearest common ancestor are left and entered" if not bad["uneven"] else
            f"the two parent chains are climbed in lock step (the other state's parent is compared with this state's parent), which finds the common ancestor only for states of equal depth: {bad['uneven'][:2]} - a composite state that is not exited fires leave and enter",
            key="ancestor-walk uneven depth", where=where)
-    return not bad["equal"] and not bad["uneven"]
+    return not bad["equal"] and not bad["uneven"] and not bad["related"]
 
 
 def _propagation_table(cfg, props, meth, param, helpers=None):
